@@ -85,6 +85,7 @@ def detailed_chunks_iter(chunk_size: int, string: bytes):
     """
     if len(string) <= chunk_size:
         yield True, string
+        return
 
     nb_chunks = int(math.ceil(len(string) / float(chunk_size)))
 
